@@ -20,8 +20,9 @@
      consensus/wal.go     repairWalFile (drop the torn tail) (part of Restart)
                           processFlushTicks / autofile RotateFile  BackgroundSync
 
-   Durable : pv_file, pv_tmp, wal_synced, wal_unsynced        (wal_unsynced: written, not yet
-             fsync'ed; a crash keeps ANY prefix of it and possibly a torn next record)
+   Durable : pv_file, pv_tmp, wal_synced, wal_unsynced, wal_head
+             (wal_unsynced: written, not yet fsync'ed; a crash keeps ANY prefix of it and
+             possibly a torn next record.  wal_head: where the current head file begins)
    Volatile: up, pv_mem, rs, inq, pc, replay
    Ghost   : released, ncrash, act
 
@@ -93,13 +94,15 @@ InRec(t, r, v) == Rec("in", t, r, v, 0)
 NoPolka == "none"
 InitRS == [r |-> 0, st |-> -1, pp |-> Nil, pb |-> Nil, lk |-> Nil, pk |-> NoPolka, opv |-> FALSE]
 
-\* enterPrecommit with a polka for block v
-PrecommitOn(s, v) ==
-  IF s.lk = v \/ s.pb = v
-  THEN [rs |-> [s EXCEPT !.st = 3, !.lk = v, !.pk = NoPolka], want |-> [t |-> "precommit", r |-> s.r, v |-> v]]
-  ELSE [rs |-> [s EXCEPT !.st = 3, !.lk = Nil, !.pb = Nil, !.pk = NoPolka], want |-> [t |-> "precommit", r |-> s.r, v |-> Nil]]
 NoWant == [t |-> "none", r |-> 0, v |-> Nil]
 Want(t, r, v) == [t |-> t, r |-> r, v |-> v]
+
+\* enterPrecommit with a polka for block v: relock / lock and precommit it if it is the locked
+\* block or the proposal block, otherwise unlock and precommit nil
+PrecommitOn(s, v) ==
+  IF s.lk = v \/ s.pb = v
+  THEN [rs |-> [s EXCEPT !.st = 3, !.lk = v, !.pk = NoPolka], want |-> Want("precommit", s.r, v)]
+  ELSE [rs |-> [s EXCEPT !.st = 3, !.lk = Nil, !.pb = Nil, !.pk = NoPolka], want |-> Want("precommit", s.r, Nil)]
 
 (* handleMsg / handleTimeout on one WAL record (live or replayed): the new round state and
    the message the node now wants signed.  fv is the block createProposalBlock would make
